@@ -134,7 +134,8 @@ fn part_norm(max: u32) -> PartResult {
     r
 }
 
-const IDENTS: [&str; 4] = ["a", "aa", "ab", "b"];
+// "A": the comparison is case-sensitive
+const IDENTS: [&str; 5] = ["a", "aa", "ab", "b", "A"];
 
 fn ident_source(n: &str) -> String {
     format!("{}!~u{}@127.0.0.1", n, n)
@@ -158,7 +159,7 @@ pub fn case_wire(caller: &str, mask: &str, ident: &str) -> Vec<Finding> {
     if caller == "usermask" {
         cfg.users = vec![(format!("u{}", ident), ident.to_string(), None, Some(mask.to_string()))];
     }
-    let mut w = World::new(cfg.main_config(), 6);
+    let mut w = World::new(cfg.main_config(), 7);
     macro_rules! m {
         ($e:expr) => {
             match $e {
@@ -357,6 +358,14 @@ fn part_wire(max: u32) -> PartResult {
             // the same comparisons after the identity changed its nick to "a"
             if c == "who" || c == "whois" || c == "oper" || c == "speak" {
                 cases.push((c, m.clone(), "a^"));
+            }
+        }
+    }
+    // letter case: a mask matches only the identity written in the same case
+    for m in ["A", "a", "A*", "A!*@*", "a!~uA@*", "A!~uA@127.0.0.1", "*!~ua@*"] {
+        for c in ["ban", "except", "invex", "speak", "oper", "usermask", "who", "whois"] {
+            for id in ["a", "A"] {
+                cases.push((c, m.to_string(), id));
             }
         }
     }
